@@ -15,10 +15,10 @@ if [ -n "$MUT_TESTS" ]; then (cd "$d" && GOFLAGS=-mod=mod GOPROXY=off GOSUMDB=of
 cd /verif
 stamp=$(mktemp /tmp/vstamp.XXXXXX)
 cp -r evidence /tmp/vmut-evidence.$$ 2>/dev/null
-VERIF_REPO="$d" ./check "$id" "$tier" 2>&1 | grep -v '^    ' | tail -12
+VERIF_REPO="$d" ./check "$id" "$tier" 2>&1 | tee "$stamp" | grep -v '^    ' | tail -12
 rc=${PIPESTATUS[0]}
 rm -rf evidence; mv /tmp/vmut-evidence.$$ evidence 2>/dev/null
-find /verif/replays -type f -newer "$stamp" -print0 2>/dev/null | xargs -0 -r rm -f
+grep -ho 'replay=/verif/replays/[^ ]*' "$stamp" | sed 's/^replay=//' | sort -u | xargs -r rm -f
 rm -rf "$d"
 rm -f "$stamp"
 echo "mutant exit=$rc"
